@@ -33,7 +33,7 @@ func init() {
 			"cyclic Go values are not generated; allocation size requested by length prefixes is recorded but is not a verdict",
 			"a per-case watchdog of 20 s (confirmed alone with 60 s) decides 'fails to terminate'",
 		},
-		quick: 720000, thorough: 8000000, minQuick: 100000, minThorough: 2000000,
+		quick: 1200000, thorough: 9000000, minQuick: 100000, minThorough: 2000000,
 	}})
 }
 
@@ -174,6 +174,27 @@ func c05BigInts() []int {
 
 type c05Plain2 struct{ A int }
 
+// methods with two results of which the second is not an error
+type c05Comma struct{ N int }
+
+func (c c05Comma) Discount() (float64, bool)    { return 0.5, true }
+func (c c05Comma) First() (string, int)         { return "f", c.N }
+func (c *c05Comma) Deadline() (time.Time, bool) { return time.Time{}, false }
+func (c c05Comma) Pair() (c05Plain2, c05Plain2) { return c05Plain2{1}, c05Plain2{2} }
+func (c c05Comma) Three() (int, string, error)  { return 1, "s", nil }
+func (c c05Comma) NilErr() (string, error)      { return "ok", nil }
+
+// a list that contains itself, wrapped in n more lists
+func c05DeepSelf(n int) interface{} {
+	inner := []interface{}{nil, "x"}
+	inner[0] = inner
+	var v interface{} = inner
+	for i := 0; i < n; i++ {
+		v = []interface{}{v}
+	}
+	return v
+}
+
 // more than 50 records of a comparable struct type whose interface field holds something that is not comparable
 func c05BoxedRecords(asIface bool) interface{} {
 	typed := make([]c05Boxed, 60)
@@ -250,6 +271,8 @@ func c05Values() []namedVal {
 		{"named-int", c05Cents(-1234)}, {"named-float", c05Ratio(-2.25)},
 		{"re-slash", "/"}, {"re-mods-unclosed", "/sim"}, {"re-flag-only", "/i"}, {"re-full", "/^h.l+o$/ims"}, {"re-broken", "/(/u"}, {"fmt-verbs", "%d %s %v %[3]d %*d %!"},
 		{"intbig-1", math.MaxInt64 - 1}, {"intmin+1", math.MinInt64 + 1},
+		{"comma-ok-methods", c05Comma{N: 3}}, {"ptr-comma-ok-methods", &c05Comma{N: 4}},
+		{"self-slice-deep", c05DeepSelf(40)}, {"self-slice-deeper", c05DeepSelf(300)}, {"map-iface-nan-keys", map[interface{}]string{math.NaN(): "a", math.NaN(): "b", "k": "c"}},
 		{"float-small", 0.25}, {"float-neg-small", -0.5}, {"float32-small", float32(0.125)}, {"str-frac", "0.3"}, {"float-tiny", 1e-300}, {"float-just-below-one", 0.9999999999999999},
 		{"map-array-keys", map[[2]int]string{{1, 2}: "x", {3, 1}: "y"}}, {"short-ints", []int{1}}, {"map-struct-keys", map[c05Plain2]int{{A: 1}: 1}}, {"array2", [2]int{1, 2}},
 		{"boxed-records-big", c05BoxedRecords(false)}, {"boxed-records-big-iface", c05BoxedRecords(true)}, {"boxed-record", c05Boxed{V: map[string]interface{}{"k": 1}}}, {"boxed-array", [2]c05Boxed{{V: []int{1}}, {V: 2}}},
@@ -272,7 +295,7 @@ var c05Constructs = []string{
 	"{{ v + 1 }}", "{{ 1 - v }}", "{{ v * v }}", "{{ v / 2 }}", "{{ 2 / v }}", "{{ v % 3 }}", "{{ 3 % v }}", "{{ v ^ 2 }}", "{{ 2 ^ v }}", "{{ v ~ v }}", "{{ v == v }}", "{{ v != 1 }}", "{{ v < 1 }}", "{{ v >= w }}",
 	"{{ v in v }}", "{{ 1 in v }}", "{{ 'a' in v }}", "{{ v in [1, 'a'] }}", "{{ v in 'abc' }}", "{{ v not in w }}", "{{ v matches '/a/' }}", "{{ 'a' matches v }}", "{{ v starts with 'a' }}", "{{ 'a' ends with v }}", "{{ v and w }}", "{{ v or w }}",
 	"{{ v is defined }}", "{{ v.x is defined }}", "{{ v is empty }}", "{{ v is null }}", "{{ v is even }}", "{{ v is odd }}", "{{ v is iterable }}", "{{ v is divisible_by(2) }}", "{{ 4 is divisible_by(v) }}", "{{ v is same_as(v) }}", "{{ v is equalto(1) }}", "{{ v is starts_with('a') }}", "{{ v is matches('a') }}", "{{ v is nosuchtest }}",
-	"{{ max(v) }}", "{{ min(v, 1) }}", "{{ max(v, v) }}", "{{ range(v, 3) }}", "{{ range(0, v) }}", "{{ range(0, 3, v) }}", "{{ range(v) }}", "{{ length(v) }}", "{{ cycle(v, 1) }}", "{{ cycle([1, 2], v) }}", "{{ random(v) }}", "{{ date(v) }}", "{{ date(v, v) }}", "{{ dump(v) }}", "{{ merge(v, v) }}", "{{ merge(v, [1]) }}", "{{ json_encode(v) }}", "{{ constant(v) }}", "{{ include(v) }}", "{{ parent() }}", "{{ v() }}", "{{ v.x() }}", "{{ v.Val() }}", "{{ v.WithArg(1) }}", "{{ v.Ptr }}|{{ v.Val }}|{{ v.V }}", "{{ v.Ptr() }}",
+	"{{ max(v) }}", "{{ min(v, 1) }}", "{{ max(v, v) }}", "{{ range(v, 3) }}", "{{ range(0, v) }}", "{{ range(0, 3, v) }}", "{{ range(v) }}", "{{ length(v) }}", "{{ cycle(v, 1) }}", "{{ cycle([1, 2], v) }}", "{{ random(v) }}", "{{ date(v) }}", "{{ date(v, v) }}", "{{ dump(v) }}", "{{ merge(v, v) }}", "{{ merge(v, [1]) }}", "{{ json_encode(v) }}", "{{ constant(v) }}", "{{ include(v) }}", "{{ parent() }}", "{{ v() }}", "{{ v.x() }}", "{{ v.Val() }}", "{{ v.WithArg(1) }}", "{{ v.Ptr }}|{{ v.Val }}|{{ v.V }}", "{{ v.Ptr() }}", "{{ v.Discount }}|{{ v.First }}|{{ v.Deadline }}|{{ v.Pair }}|{{ v.Three }}|{{ v.NilErr }}|{{ v.Two }}", "{% if v.Discount > 0.1 %}y{% endif %}{{ v.First is defined ? 1 : 0 }}{{ v.Deadline|date('Y') }}",
 	"{% set q = v %}{{ q }}{% set v = 1 %}{{ v }}", "{% do v %}", "{% include v %}", "{% include v ignore missing %}", "{% include 'nope' ignore missing with v %}", "{% include 'canary_inc' with {'a': v} only %}", "{% extends v %}", "{% import v as z %}", "{% from v import z %}",
 	"{% apply upper %}{{ v }}{% endapply %}", "{% spaceless %}<a> {{ v }} </a>{% endspaceless %}", "{% macro mm(a, b = v) %}{{ a }}{{ b }}{% endmacro %}{{ mm(v) }}{{ mm() }}{{ mm(v, v, v) }}",
 	"{{ [v, v]|join(',') }}", "{{ {'k': v}|keys|join }}", "{{ {'k': v}.k }}", "{{ [v]|first }}", "{{ v|default(v)|upper|length }}", "{{ v|first|last|first }}", "{{ v|keys|sort|reverse|join('-') }}", "{{ v|merge(w)|sort|join }}", "{{ w|merge(v)|length }}", "{{ v|slice(1)|slice(-1)|length }}",
